@@ -44,6 +44,36 @@ func (tr *Tr) execCall(fr *Frame, c *ssa.CallCommon, instr *ssa.Call, st *State)
 }
 
 func (tr *Tr) callStatic(fr *Frame, f *ssa.Function, bind []Value, args []Value, resT types.Type, st *State) Value {
+	v := tr.callStatic1(fr, f, bind, args, resT, st)
+	tr.afterCallHints(fr, tr.g.funcKey(f), f.Signature, v, st)
+	return v
+}
+
+// afterCallHints checks and assumes the "after <callee> assert" hints of the function under contract.
+func (tr *Tr) afterCallHints(fr *Frame, key string, sig *types.Signature, res Value, st *State) {
+	if fr == nil || !fr.top || tr.fc == nil || len(tr.fc.After) == 0 || tr.specMode > 0 || st.guard == "false" {
+		return
+	}
+	tr.callCount[key]++
+	for _, ac := range tr.fc.After {
+		if ac.Callee != key || (ac.Ordinal != 0 && ac.Ordinal != tr.callCount[key]) {
+			continue
+		}
+		env := tr.frameEnv(fr, st, tr.curBlock, nil, nil)
+		env.atIdx = tr.curInstrIdx
+		if res != nil {
+			tr.bindResults(env, sig, res)
+		}
+		goal := tr.evalBool(env, ac.Clause.Expr)
+		lbl := ac.Clause.Label
+		if lbl == "" {
+			lbl = fmt.Sprintf("L%d", ac.Clause.Line)
+		}
+		tr.oblige(st, "assert", fmt.Sprintf("after.%s.%s@%d", key, lbl, tr.callCount[key]), ac.Clause.Props, goal, "hint after call to "+key+": "+ac.Clause.Src)
+	}
+}
+
+func (tr *Tr) callStatic1(fr *Frame, f *ssa.Function, bind []Value, args []Value, resT types.Type, st *State) Value {
 	key := tr.g.funcKey(f)
 	if v, handled := tr.libCall(key, f, args, resT, st); handled {
 		return v
@@ -206,7 +236,11 @@ func (tr *Tr) havocMods(st, pre *State, mods map[string]modInfo) {
 func (tr *Tr) bindParams(env *CEnv, f *ssa.Function, sig *types.Signature, recv *EV, args []Value) {
 	if f != nil {
 		for i, p := range f.Params {
-			env.vars[p.Name()] = EV{V: args[i], T: p.Type()}
+			a := args[i]
+			if lv, ok := a.(LocV); ok && isPointer(p.Type()) {
+				a = Sc{T: tr.asRef(lv)}
+			}
+			env.vars[p.Name()] = EV{V: a, T: p.Type()}
 		}
 		return
 	}
